@@ -37,6 +37,7 @@ type C17Spec struct {
 	Strategy   string `json:"strategy,omitempty"`   // always | ifpossible
 	SignerWho  string `json:"signerWho,omitempty"`  // signer | other: who actually signed
 	SecondSign bool   `json:"secondSign,omitempty"` // prov signed by the other key although the keyring trusts only signer
+	Multi      string `json:"multi,omitempty"`      // "" | "listed": the provenance lists a second archive too; "swapped": … and that archive's bytes are served under the first one's name
 	ReadError  bool   `json:"readError,omitempty"`  // after an accepted download the archive is verified again while reading it fails with an I/O error
 	Rekey      string `json:"rekey,omitempty"`      // the keyring FILE is rewritten with this content after the first download; the chart is then downloaded again
 }
@@ -147,7 +148,29 @@ func ExecuteC17(t *testing.T, plan *Plan) *RunResult {
 		who = "signer"
 	}
 	archive, prov := signedChart("mychart0", who)
-	_, otherProv := signedChart("mychart1", who)
+	otherArchive, otherProv := signedChart("mychart1", who)
+	servedArchive := archive
+	if c.Multi != "" {
+		// a provenance file may list several archives: each name vouches for its own digest only
+		if block, _ := clearsign.Decode(prov); block != nil {
+			osum := sha256.Sum256(otherArchive)
+			body := append([]byte{}, block.Plaintext...)
+			body = append(bytes.TrimRight(body, "\n"), []byte("\n  mychart1-1.0.0.tgz: sha256:"+hex.EncodeToString(osum[:])+"\n")...)
+			ent := testKeys().signer
+			if who == "other" {
+				ent = testKeys().other
+			}
+			var out bytes.Buffer
+			if w, err := clearsign.Encode(&out, ent.PrivateKey, nil); err == nil {
+				w.Write(body)
+				w.Close()
+				prov = out.Bytes()
+			}
+		}
+		if c.Multi == "swapped" {
+			servedArchive = otherArchive
+		}
+	}
 	keyring := filepath.Join(dir, "pubring.gpg")
 	writeKeyring(keyring, c.Keyring)
 	served := "mychart0-1.0.0.tgz"
@@ -171,7 +194,7 @@ func ExecuteC17(t *testing.T, plan *Plan) *RunResult {
 		n := NewNetSim()
 		defer n.Close()
 		base := "https://repo1.example.com/charts/"
-		n.Artefacts["chart"] = archive
+		n.Artefacts["chart"] = servedArchive
 		n.Artefacts["prov"] = prov
 		if c.SwapProv {
 			n.Artefacts["prov"] = otherProv
@@ -225,11 +248,14 @@ func ExecuteC17(t *testing.T, plan *Plan) *RunResult {
 		res.Violations = append(res.Violations, Violation{"C17", clause, "download-verify", cause, detail, 0})
 	}
 	cause := fmt.Sprintf("keyring=%s,target=%s:%s,rename=%v%s,swap=%v,signedBy=%s", c.Keyring, c.Target, c.Corrupt, c.Rename, c.RenameTo, c.SwapProv, who)
+	if c.Multi != "" {
+		cause += ",multi=" + c.Multi
+	}
 	res.Checks += 3
 	sum := sha256.Sum256(archive)
 	wantHash := "sha256:" + hex.EncodeToString(sum[:])
 	trusted := (who == "signer" && (c.Keyring == "signer" || c.Keyring == "signer+other")) || (who == "other" && (c.Keyring == "other" || c.Keyring == "signer+other"))
-	intact := c.Target == "" && !c.Rename && !c.SwapProv
+	intact := c.Target == "" && !c.Rename && !c.SwapProv && c.Multi != "swapped"
 	accepted := opErr == nil && panicked == ""
 	if panicked != "" {
 		violate("no-panic", cause, "verification panicked: "+trunc(panicked, 300))
@@ -363,6 +389,9 @@ func genC17(seed, index uint64, tier string) *Plan {
 	}
 	if g.Chance(0.3) {
 		c.Strategy = "ifpossible"
+	}
+	if c.Target == "" && !c.Rename && !c.SwapProv && g.Chance(0.3) {
+		c.Multi = g.Pick("listed", "swapped", "swapped")
 	}
 	if g.Chance(0.25) {
 		c.Rekey = g.Pick("signer", "other", "empty", "signer+other")
